@@ -126,3 +126,23 @@ func shrinkInputs(inputs []string, fails func([]string) bool) []string {
 	}
 	return cur
 }
+
+// corpusPrograms returns the shipped example/test programs that are deterministic and stay inside the language
+// (no random numbers, clocks, sleeps, terminal, images, shell, introspection), for the differential monitors.
+func corpusPrograms() []string {
+	var out []string
+	for _, b := range Corpus() {
+		src := string(b)
+		skip := false
+		for _, w := range []string{"rand", "time.", "sleep", "info", "type(", "image", "read(", "exec(", "run(", "term.", "load(", "save(", "pi_perf", "1_000_000", "100000"} {
+			if strings.Contains(src, w) {
+				skip = true
+				break
+			}
+		}
+		if !skip && len(src) < 20000 {
+			out = append(out, src)
+		}
+	}
+	return out
+}
